@@ -205,6 +205,52 @@ def run_flow(ctx) -> RuleResult:
                 f"are printed as 1"))
     if n_elide < 1:
         raise AnalysisError("_to_string: coefficient elision branches not recognised")
+    # coefficient text: what is converted to text is the coefficient element itself, never a rounded / cast / reduced
+    # function of it (the text must denote the polynomial exactly)
+    lossy = {"round", "around", "rint", "floor", "ceil", "trunc", "fix", "int", "float", "abs", "absolute", "astype",
+             "real", "imag", "format_float_positional", "format_float_scientific", "array2string", "round_"}
+    n_text = 0
+    seen_text = set()
+    for path in ctx.paths(module, func, max_iter=1, max_paths=4000):
+        for step in path:
+            for raw in step_exprs(step):
+                for call in calls_in(raw):
+                    if not (isinstance(call.func, ast.Name) and call.func.id in ("str", "repr", "format") and call.args):
+                        continue
+                    arg = strip_tags(step.expand(call.args[0]))
+                    text = U(arg)
+                    if ".coefficients" not in text or (id(call), text) in seen_text:
+                        continue
+                    seen_text.add((id(call), text))
+                    n_text += 1
+                    core = arg
+                    while isinstance(core, ast.Call) and isinstance(core.func, ast.Attribute) and core.func.attr == "item" \
+                            and not core.args:
+                        core = core.func.value
+                    plain = isinstance(core, ast.Subscript) and U(core.value).endswith(".coefficients")
+                    bad = None
+                    for node in ast.walk(arg):
+                        if isinstance(node, ast.Call):
+                            fn = node.func.attr if isinstance(node.func, ast.Attribute) else getattr(node.func, "id", "")
+                            if fn in lossy:
+                                bad = fn
+                        elif isinstance(node, ast.Attribute) and node.attr in ("real", "imag"):
+                            bad = node.attr
+                    if call.func.id == "format" and len(call.args) > 1:
+                        bad = bad or "format spec"
+                    result.ob("the text of a coefficient is produced from the coefficient element itself", plain and not bad,
+                              module.loc(step.orig), text[:80])
+                    if bad:
+                        result.add(Finding(
+                            "R-FLOW", module, "_to_string", call,
+                            f"the coefficient is converted to text as '{U(call)[:80]}': '{bad}' is applied first, so the digits that "
+                            f"are printed are those of a rounded / truncated / projected value and the text no longer denotes the "
+                            f"polynomial (e.g. q0/3 printed with 8 decimals)",
+                            derivation=describe_path(path), construct=f"coefficient text through {bad}"))
+                    elif not plain:
+                        raise AnalysisError(f"_to_string: coefficient text idiom not recognised: {U(call)[:100]}")
+    if n_text < 1:
+        raise AnalysisError("_to_string: no str(<coefficient>) found")
     result.floor = 8
     return result
 
